@@ -85,30 +85,55 @@ def slice_boundaries_ok(ctx):
     return ok, why
 
 
-def numeric_arm(ctx):
-    lt = tables.lexer_table(ctx)
-    for a in lt['arms']:
-        if a['kind'] == 'range' and a.get('range') == ('0', '9'):
-            return a
-    return None
-
-
 def float_token_shape_ok(ctx):
-    """the Float token is [0-9]+ '.' [0-9]* (accepted by f64::from_str): digits, and at most one '.' guarded by a flag"""
-    a = numeric_arm(ctx)
-    if a is None:
-        return False, 'numeric arm of the lexer not found'
-    cl = find_all(a['body'], lambda n: n.get('k') == 'closure')
-    if len(cl) != 1:
-        return False, 'numeric arm: expected one skip_while predicate'
-    body = cl[0]['body']
-    txt = render_tree(body)
-    digits = bool(find_all(body, lambda n: n.get('k') == 'mcall' and n['method'] == 'is_ascii_digit'))
-    dot = find_all(body, lambda n: n.get('k') == 'binary' and n['op'] == '&&' and 'decimal' in render(n) and "'.'" in render(n) and '!' in render(n))
-    sets = find_all(body, lambda n: n.get('k') == 'assign' and render(n['l']) == 'decimal' and n['r'].get('value') is True)
-    rets = find_all(body, lambda n: n.get('k') == 'return')
-    ok = digits and len(dot) == 1 and len(sets) == 1
-    return ok, 'number scan accepts ASCII digits and one `.` (flag `decimal` set once): digits=%s dot-guard=%d flag-sets=%d' % (digits, len(dot), len(sets))
+    """the Float token is [0-9]+ '.' [0-9]* (accepted by f64::from_str): the number scan accepts ASCII digits and at most one
+    '.', remembered in a flag that decides Int / Float.  Read from the scan closure's MIR as a truth table."""
+    def build():
+        F = ctx.facts()
+        fn, ps, clos = scan_paths(ctx, '5', 'a')
+        if len(set(clos)) != 1:
+            return False, 'number scan: expected one skip_while predicate on the path of a digit, found %d' % len(set(clos))
+        tb = closure_table(F, clos[0], ['0', '5', '9', '.', 'a', ' ', '-', 'e', '_'], flags=(0, 1), captured=(0, 1))
+        bad = []
+        for (ch, fl, cap), (res, after) in sorted(tb.items()):
+            if ch in '0123456789':
+                want = (1, cap)
+            elif ch == '.':
+                want = (1, 1) if cap == 0 else (0, 1)
+            else:
+                want = (0, cap)
+            if (res, after) != want:
+                bad.append('%r with dot-seen=%d: accepts=%s dot-seen\'=%s (expected %s)' % (ch, cap, res, after, want))
+        # the flag decides the token kind
+        L = None
+
+        def through_copies(l, depth=0):
+            # `_a = move _b` / `_a = copy _b` chains of temporaries, down to the variable itself
+            ds = fn.defs().get(l, [])
+            if depth < 8 and len(ds) == 1 and ds[0][0] == 'assign' and ds[0][3]['k'] == 'use' and ds[0][3]['op'].get('k') in ('copy', 'move') \
+                    and not ds[0][3]['op']['place']['proj']:
+                return through_copies(ds[0][3]['op']['place']['local'], depth + 1)
+            return l
+        for b, si, st in fn.stmts():
+            if st['k'] == 'assign' and st['rv']['k'] == 'aggregate' and st['rv'].get('closure') == clos[0] and st['rv']['ops']:
+                o0 = st['rv']['ops'][0]
+                if o0.get('k') in ('copy', 'move') and not o0['place']['proj']:
+                    r_ = through_copies(o0['place']['local'])
+                    ds = fn.defs().get(r_, [])
+                    if len(ds) == 1 and ds[0][0] == 'assign' and ds[0][3]['k'] in ('ref', 'rawptr') and not ds[0][3]['place']['proj']:
+                        L = ds[0][3]['place']['local']
+        kinds = {}
+        from rules import psc as _psc
+        for b, si, st in fn.stmts():
+            if st['k'] == 'assign' and st['rv']['k'] == 'aggregate' and st['rv'].get('adt') == tables.TOKEN and st['rv'].get('variant') in ('Int', 'Float'):
+                for cond, vs, d, tb_, t_ in _psc.guards(fn, b):
+                    o_ = t_['op']
+                    if L is not None and o_.get('k') in ('copy', 'move') and not o_['place']['proj'] and through_copies(o_['place']['local']) == L:
+                        kinds[st['rv']['variant']] = _psc.bool_truth(vs, t_)
+        okk = L is not None and kinds.get('Float') is True and kinds.get('Int') is False
+        ok = not bad and okk
+        return ok, 'number scan accepts ASCII digits and one `.` (remembered in a flag that selects Float): %s; flag selects token: %s' % (bad[:2] or 'table as expected', kinds)
+    return tables._memo(ctx, 'float_shape', build)
 
 
 def render_tree(e):
@@ -186,30 +211,36 @@ def run(ctx, rep):
         rep.ob(k in KEYWORDS, 'R08.2', 'lexer::Token::from', 'keyword %s' % k, 'only documented words are keywords', 'src/lexer.rs:%d' % kt['line'])
     rep.ob(len(set(kw.values())) == len(kw), 'R08.2', 'lexer::Token::from', 'distinct tokens', 'every keyword has its own token', 'src/lexer.rs:%d' % kt['line'])
     rep.ob(kt['default'] is not None and kt['default'].startswith('Identifier('), 'R08.2', 'lexer::Token::from', 'default', 'every other word is an identifier: %s' % kt['default'], 'src/lexer.rs:%d' % kt['line'])
-    # identifier arm: class + whole-word conversion
-    ident = [a for a in lt['arms'] if a['kind'] == 'class' and 'is_alphabetic' in (a['guard'] or '')]
-    ok = len(ident) == 1
-    if ok:
-        a = ident[0]
-        g = pred_atoms(a['class_guard'])
-        atoms = sorted(x[1] for x in flatten(g, 'or'))
-        start_ok = atoms == sorted(["c.is_alphabetic()", "c == '_'"])
-        cl = find_all(a['body'], lambda n: n.get('k') == 'closure')
-        cont_ok = False
-        if len(cl) == 1:
-            c_atoms = sorted(x[1] for x in flatten(pred_atoms(cl[0]['body']), 'or'))
-            cont_ok = c_atoms == sorted(["c.is_alphanumeric()", "c == '_'"])
-        # the keyword conversion is applied to read_str(start, offset()) after the scan
-        calls = [n for n in find_all(a['body'], lambda n: n.get('k') == 'mcall')]
-        order = [n['method'] for n in calls if n['method'] in ('skip_while', 'read_str', 'into')]
-        conv_ok = order[:2] == ['skip_while', 'read_str'] and 'into' in order
-        rs = [n for n in calls if n['method'] == 'read_str']
-        whole = bool(rs) and render(rs[0]['args'][0]) == 'start' and render(rs[0]['args'][1]) == 'self.offset()'
-        ok = start_ok and cont_ok and conv_ok and whole
-        rep.ob(ok, 'R08.2', fnp, 'identifier arm', 'start class alphabetic|_ (%s), continue class alphanumeric|_ (%s), keyword lookup on the whole slice start..offset() after the scan (%s, %s)'
-               % (start_ok, cont_ok, conv_ok, whole), 'src/lexer.rs:%d' % a['line'])
-    else:
-        rep.bad('R08.2', fnp, 'identifier arm', 'identifier arm not found', loc)
+    # identifier: start class, continue class and the keyword lookup on the whole word — from the constant-propagated MIR
+    O = lt['outcomes']
+    starts = sorted(c1 for (c1, c2), r in O.items() if c2 is None and r and all(x[0].startswith('<call') or x[0] == 'Identifier' for x in r) and all('skip_while' in x[2] for x in r))
+    want_starts = sorted(c1 for (c1, c2) in O if c2 is None and (c1.isalpha() or c1 == '_'))
+    start_ok = starts == want_starts
+    fnI, psI, closI = scan_paths(ctx, 'a', 'b')
+    cont_ok = False
+    if len(set(closI)) == 1:
+        tbI = closure_table(F, closI[0], ['a', 'Z', '0', '9', '_', '\u00e9', ' ', '-', '.', '"', '(', '\n'])
+        cont_ok = tbI is not None and all(v[0] == int(ch.isalnum() or ch == '_') for (ch, fl), v in tbI.items())
+    # read_str(start, offset()) after the scan, start = offset() before the first character; the slice goes through Token::from
+    conv_ok = whole = False
+    for p_ in psI:
+        names = [c_[1] for c_ in p_.calls]
+        T_ = tables.TOK
+        if T_ + 'read_str' in names and T_ + 'skip_while' in names:
+            i_sw, i_rs = names.index(T_ + 'skip_while'), names.index(T_ + 'read_str')
+            rs = p_.calls[i_rs]
+            offs = [k for k, n_ in enumerate(names) if n_ == T_ + 'offset']
+            first_bump = names.index(T_ + 'bump')
+            a_from, a_to = rs[2][1], rs[2][2]
+            # `start` is the offset() taken right before the character that starts the word: exactly one bump lies between that
+            # call and the scan (whatever was skipped before it)
+            k0 = max([k for k in offs if a_from[0] == 'call' and a_from[1] == T_ + 'offset' and p_.calls[k][0] == a_from[3] and k < i_sw], default=None)
+            whole = k0 is not None and names[k0 + 1:i_sw].count(T_ + 'bump') == 1 and \
+                a_to[0] == 'call' and a_to[1] == T_ + 'offset' and any(p_.calls[k][0] == a_to[3] and k > i_sw for k in offs)
+            conv_ok = i_sw < i_rs and any(n_.startswith("<lexer::Token<'a> as core::convert::From") or n_.endswith('Into<U>>::into') or n_.endswith('::into') for n_ in names[i_rs:])
+    ok = start_ok and cont_ok and conv_ok and whole
+    rep.ob(ok, 'R08.2', fnp, 'identifier arm', 'start class alphabetic|_ (%s), continue class alphanumeric|_ (%s), keyword lookup on the whole slice start..offset() after the scan (%s, %s)'
+           % (start_ok, cont_ok, conv_ok, whole), loc)
     # whitespace set
     lf = layout_facts(ctx)
     rep.ob(not lf['undecided'], 'R08.2', 'lexer::is_whitespace', 'pure table', 'for every code point examined the lexer decides skip / no skip from the character alone (undecided: %s)' % [hex(c) for c in lf['undecided']][:5], 'src/lexer.rs')
@@ -220,58 +251,69 @@ def run(ctx, rep):
     rep.ob(ok, 'R08.3', 'lexer::Tokenizer', 'slice offsets', why, 'src/lexer.rs')
 
     # ---- R08.4 escape parity -----------------------------------------------------------------
-    sw = S.method(LEX, 'Tokenizer', 'skip_while')
-    wl = find_all(sw['body'], lambda n: n.get('k') == 'while')
-    asg = find_all(sw['body'], lambda n: n.get('k') == 'assign' and render(n['l']) == 'escaped')
-    table = None
-    if len(wl) == 1 and len(asg) == 1:
-        table = {}
-        lets = {}
-        for st_ in find_all(wl[0]['body'], lambda n: n.get('k') == 's_let'):
-            if st_['pat'].get('k') == 'p_ident' and st_.get('init'):
-                lets[st_['pat']['name']] = st_['init']
-        for esc in (False, True):
-            for ch in ('\\', 'x'):
-                table[(esc, ch)] = eval_delta(asg[0]['r'], esc, ch, lets)
+    table, why_ = skip_while_delta(ctx)
+    sw_fn = F.fn(tables.TOK + 'skip_while')
     want = {(False, '\\'): True, (False, 'x'): False, (True, '\\'): False, (True, 'x'): False}
     rep.table('escape_delta', {'%s,%s' % k: v for k, v in (table or {}).items()})
     for k in want:
         got = table.get(k) if table else None
         rep.ob(got == want[k], 'R08.4', 'lexer::Tokenizer::skip_while', 'delta(escaped=%s, c=%s)' % (k[0], 'backslash' if k[1] == '\\' else 'other'),
-               'next escaped must be %s (an escaped backslash does not escape what follows); the code gives %s' % (want[k], got), 'src/lexer.rs:%d' % sw['line'])
-    # the string arm uses the flag: predicate `c != '"' || esc`
-    strarm = [a for a in lt['arms'] if a.get('char') == '"']
+               'next escaped must be %s (an escaped backslash does not escape what follows); the code gives %s %s' % (want[k], got, why_), sw_fn.loc())
+    # the string scan continues while the character is not an unescaped quote
+    _, sps, sclos = scan_paths(ctx, '"', 'a')
     okp = False
-    if strarm:
-        cl = find_all(strarm[0]['body'], lambda n: n.get('k') == 'closure')
-        if cl:
-            atoms = sorted(x[1] for x in flatten(pred_atoms(cl[0]['body']), 'or'))
-            okp = atoms == sorted(["c != '\"'", 'esc'])
+    if len(set(sclos)) == 1:
+        tb = closure_table(F, sclos[0], ['"', 'a', '\\', 'n', ' ', '\n'])
+        okp = tb is not None and all(v[0] == (0 if (ch == '"' and fl == 0) else 1) for (ch, fl), v in tb.items())
+        rep.table('string_scan_predicate', {'%r,%d' % k: v[0] for k, v in (tb or {}).items()})
     rep.ob(okp, 'R08.4', fnp, 'string scan predicate', 'scan continues while the character is not an unescaped quote', loc)
 
     # ---- R08.5 single-pass decode ------------------------------------------------------------
-    pse = S.method('src/parser.rs', 'Parser', 'parse_string_expression')
-    reps = find_all(pse['body'], lambda n: n.get('k') == 'mcall' and n['method'] in ('replace', 'replacen', 'replace_range'))
-    rep.ob(not reps, 'R08.5', 'parser::Parser::parse_string_expression', 'post-pass replace', 'no replace() over already decoded text (it would re-interpret characters that came from an escaped backslash); found %d' % len(reps),
-           'src/parser.rs:%d' % pse['line'])
-    loops = find_all(pse['body'], lambda n: n.get('k') in ('for', 'while', 'loop'))
-    rep.ob(len(loops) == 1, 'R08.5', 'parser::Parser::parse_string_expression', 'single pass', 'exactly one loop over the raw text (found %d)' % len(loops), 'src/parser.rs:%d' % pse['line'])
-    # escape set handled by the decoder: char literals compared/matched in the function
-    lits = sorted(set(n['value'] for n in find_all(pse['body'], lambda n: n.get('k') == 'lit' and n.get('lit') == 'char')))
-    strs = sorted(set(n['value'] for n in find_all(pse['body'], lambda n: n.get('k') == 'lit' and n.get('lit') == 'str')))
-    handled = set()
-    for c in lits:
-        if c in ('"', '\\', 'n', 't'):
-            handled.add(c)
-    for s_ in strs:
-        if s_ in ('\\n', '\\t'):
-            handled.add(s_[1])
-    rep.ob(handled == set(ESCAPES), 'R08.5', 'parser::Parser::parse_string_expression', 'escape set', 'decoder handles exactly \\" \\\\ \\n \\t: %s' % sorted(handled), 'src/parser.rs:%d' % pse['line'])
-    # in the single pass, a backslash consumes the following character in the same step
-    consume = find_all(pse['body'], lambda n: n.get('k') == 'mcall' and n['method'] == 'next') if loops else []
-    single_consume = bool(loops) and loops[0]['k'] in ('while', 'loop') and len(consume) >= 2
-    rep.ob(single_consume or (not reps and False), 'R08.5', 'parser::Parser::parse_string_expression', 'escape consumes next char',
-           'handling a backslash takes the following character from the same iterator in the same step', 'src/parser.rs:%d' % pse['line'])
+    # read from the MIR of the decoder (helpers it was split into are spliced in): no replace over decoded text, one
+    # iterator over the raw text and one loop, the characters tested after a backslash and what each of them produces
+    dec = F.fn("parser::Parser::<'a>::parse_string_expression")
+    dloc = dec.loc()
+    names = [callee_name(t_) for b, t_ in dec.calls()]
+    reps = [n for n in names if n.endswith(('::replace', '::replacen', '::replace_range'))]
+    rep.ob(not reps, 'R08.5', 'parser::Parser::parse_string_expression', 'post-pass replace', 'no replace() over already decoded text (it would re-interpret characters that came from an escaped backslash); found %d' % len(reps), dloc)
+    iters = [n for n in names if n.endswith(('core::str::<impl str>::chars', 'core::str::<impl str>::char_indices', 'core::str::<impl str>::bytes', '::as_bytes'))]
+    nloops = len(dec.natural_loops())
+    rep.ob(len(iters) == 1 and nloops == 1, 'R08.5', 'parser::Parser::parse_string_expression', 'single pass', 'exactly one iterator over the raw text and one loop (found %d iterators, %d loops)' % (len(iters), nloops), dloc)
+    tested = {}
+    for b in sorted(dec.normal_blocks()):
+        t_ = dec.term(b)
+        if t_['k'] == 'switch' and t_.get('ty') == 'char':
+            for val, tb in t_['targets']:
+                tested.setdefault(chr(val), []).append(tb)
+        for st_ in dec.blocks[b]['stmts']:
+            if st_['k'] == 'assign' and st_['rv']['k'] == 'binop' and st_['rv']['op'] in ('Eq', 'Ne') and st_['rv'].get('lty') == 'char':
+                for o_ in (st_['rv']['l'], st_['rv']['r']):
+                    if o_.get('k') == 'const' and 'int' in o_:
+                        tested.setdefault(chr(o_['int']), [])
+    rep.ob(set(tested) == {'"', '\\', 'n', 't'}, 'R08.5', 'parser::Parser::parse_string_expression', 'escape set', 'decoder handles exactly \\" \\\\ \\n \\t: tests %s' % sorted(tested), dloc)
+    produced = {}
+    for ch, tbs in tested.items():
+        for tb in tbs:
+            for p_ in AbsInt(F, dec, {}, max_paths=64, loop_bound=1).run(tb):
+                psh = [c_ for c_ in p_.calls if c_[1].endswith('String::push') and len(c_[2]) == 2]
+                if psh:
+                    v_ = uncast(psh[0][2][1])
+                    produced.setdefault(ch, set()).add(chr(v_[1]) if v_[0] == 'int' else 'same')
+    wantp = {'n': {'\n'}, 't': {'\t'}}
+    okm = all(produced.get(k) == v for k, v in wantp.items()) and all(produced.get(k, {'same'}) <= {k, 'same'} for k in ('"', '\\'))
+    rep.ob(okm, 'R08.5', 'parser::Parser::parse_string_expression', 'escape values', 'after a backslash: n gives a line feed, t a tab, quote and backslash themselves: %s' % {k: sorted(v) for k, v in produced.items()}, dloc)
+    # a backslash must take the following character out of the normal path: either it is fetched in the same step (a second
+    # next() in the loop) or a flag set on the backslash routes it (set true and false inside the loop)
+    loop_blocks = set().union(*[set(bd) for h, bd in dec.natural_loops()]) if nloops else set()
+    nexts = [b for b, t_ in dec.calls(loop_blocks) if callee_name(t_).endswith(('Iterator>::next', 'Iterator::next'))] if loop_blocks else []
+    flag_sets = {}
+    for b in loop_blocks:
+        for st_ in dec.blocks[b]['stmts']:
+            if st_['k'] == 'assign' and not st_['place']['proj'] and st_['rv']['k'] == 'use' and st_['rv']['op'].get('k') == 'const' and st_['rv']['op'].get('ty') == 'bool':
+                flag_sets.setdefault(st_['place']['local'], set()).add(st_['rv']['op'].get('int'))
+    single_consume = len(nexts) >= 2 or any(v == {0, 1} for v in flag_sets.values())
+    rep.ob(single_consume, 'R08.5', 'parser::Parser::parse_string_expression', 'escape consumes next char',
+           'handling a backslash takes the following character out of the normal path (second next() in the step, or a pending flag)', dloc)
 
     # ---- R08.6 sentinel ------------------------------------------------------------------------
     from rules import trm
@@ -351,74 +393,126 @@ def eval_delta(e, escaped, ch, lets=None):
     return None
 
 
+def closure_table(F, cname, chars, flags=(0, 1), captured=None):
+    """{(char, flag): (result, captured bool after the call)} of a scan predicate closure |c, esc| -> bool, by constant
+    propagation through its MIR; `captured` = initial value of the (single) variable it captures by reference, if any"""
+    g = F.fns.get(cname)
+    out = {}
+    if g is None:
+        return None
+    for ch in chars:
+        for fl in flags:
+            for cap in ((None,) if captured is None else captured):
+                env = {'_2': ('int', ord(ch), 'char'), '_3': ('int', fl, 'bool')}
+                if cap is not None:
+                    env['_1.*.f0'] = ('ref', '$cap')
+                    env['$cap'] = ('int', cap, 'bool')
+                ps = AbsInt(F, g, env, max_paths=8, decide_call=lambda n, a, t_: tables.char_pred(n, a, t_) or (tables.eval_pure(F, n, a) if n in F.fns else None)).run()
+                rets = [(p.env.get('_0'), p.env.get('$cap')) for p in ps if p.exit == 'return']
+                if len(ps) == 1 and len(rets) == 1 and rets[0][0] and rets[0][0][0] == 'int':
+                    after = rets[0][1][1] if rets[0][1] and rets[0][1][0] == 'int' else None
+                    out[(ch, fl) if cap is None else (ch, fl, cap)] = (rets[0][0][1], after)
+                else:
+                    out[(ch, fl) if cap is None else (ch, fl, cap)] = (None, None)
+    return out
+
+
+def scan_paths(ctx, c1, c2):
+    """the paths of Tokenizer::next on input c1 c2.. (constant first two characters), with the closures handed to skip_while"""
+    F = ctx.facts()
+    fn, ps, model, trunc = tables.lex_run(F, [c1, c2])
+    return fn, ps, model.closures
+
+
+def skip_while_delta(ctx):
+    """{(escaped, char): escaped'} — the update of the escape flag over one iteration of Tokenizer::skip_while, by constant
+    propagation through the loop body (the flag is the bool handed to the predicate together with the character)"""
+    F = ctx.facts()
+    T = tables.TOK
+    fn = F.fn(T + 'skip_while')
+    loops = fn.natural_loops()
+    if len(loops) != 1:
+        return None, 'skip_while: expected one loop, found %d' % len(loops)
+    header, body = loops[0]
+    flag = None
+    for b, t_ in fn.calls(body):
+        n = callee_name(t_)
+        if n.endswith(('FnMut<Args>>::call_mut', 'FnMut::call_mut', 'FnOnce::call_once', 'Fn::call')) and len(t_['args']) == 2:
+            tv = sym(fn, t_['args'][1])
+            if tv[0] == 'tuple' and len(tv[1]) == 2 and strip(tv[1][1])[0] == 'mlocal':
+                flag = strip(tv[1][1])[1]
+    if flag is None:
+        return None, 'skip_while: the predicate call (char, flag) was not found'
+    table = {}
+    for esc in (0, 1):
+        for ch in ('\\', 'x'):
+            def decide(name, argvals, t_, ch=ch):
+                if name in (T + 'peek', T + 'bump'):
+                    return ('agg', 'core::option::Option', 'Some', (('int', ord(ch), 'char'),))
+                if name == T + 'is_eof':
+                    return ('int', 0, 'bool')
+                if name.endswith(('call_mut', 'call_once', '::call')):
+                    return ('int', 1, 'bool')
+                return tables.char_pred(name, argvals, t_)
+            ps = AbsInt(F, fn, {'_%d' % flag: ('int', esc, 'bool')}, stop_blocks={header}, decide_call=decide, max_paths=16).run(header)
+            backs = [p for p in ps if p.exit == 'stop']
+            vals = {p.env.get('_%d' % flag) for p in backs}
+            v = next(iter(vals)) if len(vals) == 1 else None
+            table[(bool(esc), ch)] = bool(v[1]) if v and v[0] == 'int' else None
+    return table, ''
+
+
+def _skips_first(F, ps, model):
+    """does every path of next() on this input drop the first character without making a token of it: the scan restarts
+    (recursive next() after exactly that one character) or goes on to lex the `a` that follows as the start of a word"""
+    T = tables.TOK
+    if not ps:
+        return None
+    kinds = set()
+    for p in ps:
+        r = p.env.get('_0')
+        names = [c[1] for c in p.calls]
+        nb_before_scan = names[:names.index(T + 'skip_while')].count(T + 'bump') if (T + 'skip_while') in names else None
+        if p.exit == 'return' and r and r[0] == 'call' and r[1] == tables.LEXNEXT and (T + 'skip_while') not in names and names.count(T + 'bump') == 1:
+            kinds.add('skip')
+        elif p.exit == 'return' and nb_before_scan == 2 and r and r[0] == 'agg' and r[2] == 'Some':
+            kinds.add('skip')       # the word starting at the second character
+        else:
+            kinds.add('other')
+    return True if kinds == {'skip'} else (False if 'skip' not in kinds else None)
+
+
 def layout_facts(ctx):
     """which characters the lexer skips as whitespace, and what the comment scan does — by constant propagation through the MIR
     of Tokenizer::next for every code point below U+3001 (+ a few beyond), independent of how the tests are written"""
     def build():
         F = ctx.facts()
-        fn = F.fn(tables.LEXNEXT)
-        T = tables.TOK
         cps = [c for c in range(0, 0x3001)] + [0xFEFF, 0x1680, 0x180E, 0x202F, 0x205F, 0xE000, 0x10000, 0x1F600]
         skipped = []
         undecided = []
         for cp in cps:
             if 0xD800 <= cp <= 0xDFFF:
                 continue
-            st = {'b': 0}
-
-            def decide(name, argvals, t_, cp=cp, st=st):
-                if name == T + 'bump':
-                    st['b'] += 1
-                    return ('agg', 'core::option::Option', 'Some', (('int', cp, 'char'),)) if st['b'] == 1 else None
-                if name == T + 'peek':
-                    return ('agg', 'core::option::Option', 'None', ())
-                r = tables.char_pred(name, argvals)
-                if r is not None:
-                    return r
-                if name in F.fns and name != tables.LEXNEXT and not name.startswith(T):
-                    return tables.eval_pure(F, name, argvals)
-                return None
-            ps = AbsInt(F, fn, {}, decide_call=decide, max_paths=16).run()
-            kinds = set()
-            for p in ps:
-                r = p.env.get('_0')
-                names = [c[1] for c in p.calls]
-                if p.exit == 'return' and r and r[0] == 'call' and r[1] == tables.LEXNEXT and (T + 'skip_while') not in names and names.count(T + 'bump') == 1:
-                    kinds.add('skip')
-                else:
-                    kinds.add('other')
-            if kinds == {'skip'}:
+            fn, ps, model, trunc = tables.lex_run(F, [chr(cp), 'a'], max_paths=16)
+            v = None if trunc else _skips_first(F, ps, model)
+            if v is True:
                 skipped.append(cp)
-            elif 'skip' in kinds:
+            elif v is None:
                 undecided.append(cp)
-        # the comment scan: the closure handed to skip_while after `//`
+        # the comment scan: the closure handed to skip_while after `//`; a `/` followed by anything else is Slash
         comment = {'skip': False, 'slash': False, 'pred': None}
+        fn, ps, model, trunc = tables.lex_run(F, ['/', '/', 'x'])
+        T = tables.TOK
+        outs = set()
+        for p in ps:
+            r = p.env.get('_0')
+            names = [c[1] for c in p.calls]
+            tok_from_slashes = p.exit == 'return' and r and r[0] == 'agg' and r[2] == 'Some'
+            outs.add(((T + 'skip_while') in names, bool(tok_from_slashes)))
+        comment['skip'] = bool(ps) and not trunc and outs == {(True, False)}
         O = tables.lexer_outcomes(ctx)
-        r = O.get(('/', '/'), [])
-        comment['skip'] = len(r) == 1 and r[0][0] == '<skip>' and 'skip_while' in r[0][2]
-        comment['slash'] = all(O.get(('/', c2)) and len(O[('/', c2)]) == 1 and O[('/', c2)][0][0] == 'Slash' and O[('/', c2)][0][1] == 1
-                               for c2 in [k[1] for k in O if k[0] == '/' and k[1] not in (None, '/')] ) and \
-            len(O.get(('/', None), [])) == 1 and O[('/', None)][0][0] == 'Slash'
-        st = {'b': 0}
-        clos = []
-
-        def decide2(name, argvals, t_, st=st):
-            if name == T + 'bump':
-                st['b'] += 1
-                return ('agg', 'core::option::Option', 'Some', (('int', ord('/'), 'char'),)) if st['b'] == 1 else None
-            if name == T + 'peek':
-                return ('agg', 'core::option::Option', 'Some', (('int', ord('/'), 'char'),))
-            if name == T + 'skip_while':
-                for a in argvals:
-                    if isinstance(a, tuple) and a[0] == 'closure':
-                        clos.append(a[1])
-            r_ = tables.char_pred(name, argvals)
-            if r_ is not None:
-                return r_
-            if name in F.fns and name != tables.LEXNEXT and not name.startswith(T):
-                return tables.eval_pure(F, name, argvals)
-            return None
-        AbsInt(F, fn, {}, decide_call=decide2, max_paths=16).run()
+        comment['slash'] = all(len(O[('/', c2)]) == 1 and O[('/', c2)][0][0] == 'Slash' and O[('/', c2)][0][1] == 1 for c2 in [k[1] for k in O if k[0] == '/' and k[1] != '/'])
+        clos = model.closures
         if len(set(clos)) == 1:
             cn = clos[0]
             verdicts = {}
